@@ -4,6 +4,7 @@ import (
 	"fmt"
 	"sort"
 	"strings"
+	"verifharness/hapcfg"
 
 	"pgregory.net/rapid"
 
@@ -47,7 +48,9 @@ func dynProfile(preserve, bluegreen bool) Profile {
 		p.BundlePct = 15
 	}
 	if bluegreen {
-		p.Ann = append(p.Ann, annChoice{"blue-green-deploy", []string{"group=blue=1,group=green=3", "group=blue=0,group=green=1"}})
+		p.Ann = append(p.Ann, annChoice{"blue-green-deploy", []string{"group=blue=1,group=green=3", "group=blue=0,group=green=1"}},
+			// requests that name a group are sent to a server of that group: use-server rules, one per labeled server
+			annChoice{"blue-green-header", []string{"X-Server:group"}})
 	}
 	p.SvcAnn = nil
 	p.MaxIng = 4
@@ -108,6 +111,9 @@ func (g *G) ensurePods(ep *world.Obj) []world.Op {
 				continue
 			}
 			op := world.Op{Op: "create", Obj: podFor(ep.NS, ep.Name, a, i)}
+			if g.P.UnlabeledPods && g.chance("unlabeled", 33) {
+				delete(op.Obj.Labels, "group")
+			}
 			if _, _, err := g.W.Apply(op); err != nil {
 				panic(err)
 			}
@@ -165,6 +171,10 @@ func runningVsFiles(s *ctlsim.Sim, preserveOnly bool) []string {
 			ss = append(ss, n)
 		}
 		sort.Strings(ss)
+		// use-server rules are only read when the configuration is loaded
+		if ru, du := useServerLines(running.Loaded, b), useServerLines(disk.Loaded, b); ru != du {
+			out = append(out, fmt.Sprintf("backend %s: use-server rules of the running process [%s], of the files [%s]", b, ru, du))
+		}
 		preserve := false
 		if be := disk.Loaded.Backend(b); be != nil {
 			for _, t := range be.CookieLine {
@@ -203,4 +213,22 @@ func runningVsFiles(s *ctlsim.Sim, preserveOnly bool) []string {
 		}
 	}
 	return out
+}
+
+// useServerLines returns the use-server rules of a backend section, in order.
+func useServerLines(cfg *hapcfg.Config, backend string) string {
+	if cfg == nil {
+		return ""
+	}
+	be := cfg.Backend(backend)
+	if be == nil || be.Section == nil {
+		return ""
+	}
+	var out []string
+	for _, l := range be.Section.Lines {
+		if l.Tok[0] == "use-server" {
+			out = append(out, strings.Join(l.Tok, " "))
+		}
+	}
+	return strings.Join(out, "; ")
 }
